@@ -185,3 +185,58 @@ func describeLoops(w *World, fn *ssa.Function) string {
 }
 
 var _ = types.Typ
+
+func verifyTarget(t target) *FuncResult {
+	if t.fn == nil {
+		return verifyLemma(t.w, t.ss, t.spec, t.key)
+	}
+	return verifyFunction(t.w, t.ss, t.fn, t.spec)
+}
+
+// verifyLemma proves the claims of a `prove` block: closed formulas over
+// specification functions and symbolic values (no code involved).
+func verifyLemma(w *World, ss *SpecSet, spec *FuncSpec, key string) (res *FuncResult) {
+	e := newExec(w, ss, nil, spec)
+	e.key = key
+	res = &FuncResult{Key: key, Spec: spec, Pos: spec.Line}
+	defer func() {
+		if r := recover(); r != nil {
+			res.Err = fmt.Sprintf("generator failure: %v", r)
+			res.Obls = e.ctx.obls
+			if debugPanic {
+				panic(r)
+			}
+		}
+	}()
+	if spec.Arith == "bv" {
+		e.ctx.bv = true
+	}
+	e.nextRef0 = "nextRef!0"
+	if !e.ctx.bv {
+		e.ctx.declare(e.nextRef0, sInt)
+		e.ctx.assume(lt("0", e.nextRef0))
+	}
+	e.stateSeq = 1
+	e.ctx.tag = 1
+	st := &State{id: 1, pc: "true", cells: map[*ssa.Alloc]Val{}, heaps: map[string]string{}, ghost: map[string]Val{}, nextRef: e.nextRef0}
+	e.entry = st.clone()
+	fr := &frame{fn: nil, vals: map[ssa.Value]Val{}, spec: spec, prefix: key, loops: &loopInfo{}, locals: map[string][]*ssa.Alloc{},
+		entryParams: map[string]Val{}}
+	env := &SpecEnv{ex: e, st: st, old: st, vars: map[string]Val{}, spec: spec, nextRef0: e.nextRef0}
+	for _, c := range spec.Assumes {
+		v := env.eval(c.E)
+		e.ctx.assume(v.T)
+	}
+	for i, c := range spec.Claims {
+		v := env.eval(c.E)
+		e.oblige(fr, st, fmt.Sprintf("lemma:%d", i+1), "lemma: "+c.Src, 0, v.T)
+	}
+	res.Obls = e.ctx.obls
+	res.SpecErrs = e.specErrors
+	res.Used = e.usedSpecs
+	for k := range e.assumed {
+		res.Assumed = append(res.Assumed, k)
+	}
+	sort.Strings(res.Assumed)
+	return
+}
